@@ -1,5 +1,5 @@
 \* Not run by the check (17 min at 12 workers): 4 rounds + fork block, 2 faults, lagging peers. Run 2026-09-22: 88 538 289 states generated,
-\* 15 959 920 distinct, depth 59, no error.
+\* 15 959 920 distinct, depth 59, no error. (healthCheck for any round: HCAhead = TRUE)
 SPECIFICATION Spec
 CONSTANTS
   Canon <- MCCanon4
@@ -11,6 +11,7 @@ CONSTANTS
   CountMerges = TRUE
   MaxFaults = 2
   MaxCnt = 4
+  HCAhead = TRUE
   Concurrent = FALSE
   MaxLag = 1
 CONSTRAINT StateConstraint
